@@ -16,9 +16,9 @@ Obs == ndJsonDeserialize(IOEnv.TRACE_FILE)
 Codes == {Obs[1].codes[i] : i \in 1..Len(Obs[1].codes)}     \* first line: the registered error codes
 VARIABLES l, file, slice, cprog, cnode, seen
 Say(tid, v) == PrintT(<<"VERDICT", tid, v>>)
-others == <<gvars, pvars, yvars, vvars, rvars>>
+others == <<gvars, pvars, yvars, vvars, rvars, kvars>>
 
-TInit == l = 1 /\ GInit /\ LInit /\ PInit /\ YInit /\ VInit /\ RInit
+TInit == l = 1 /\ GInit /\ LInit /\ PInit /\ YInit /\ VInit /\ RInit /\ KInit
          /\ file = << >> /\ slice = "none" /\ cprog = << >> /\ cnode = NoNode /\ seen = "no"
 
 IndexExc == "Internal error: IndexError('list index out of range')"
@@ -34,9 +34,14 @@ TBegin ==
     /\ seen' = (IF Obs[l].same THEN seen ELSE "no")   \* diagnostics identical to recorded ones of the first configuration are not repeated
 
 Verdict(o) ==
-    LET impl == ImplContext(file, o.lineno, o.col)
+    LET f == IF slice = "frag" /\ o.frag >= 1 /\ o.frag <= Len(cprog) THEN cprog[o.frag] ELSE [kind |-> "none"]
+        impl == ImplContext(file, o.lineno, o.col)
         r == ImplShow(file, cnode, TRUE)
-    IN IF o.code = "internal_error" THEN "viol:InternalError"       \* no excused class is left (all repaired)
+    IN IF o.code = "internal_error"
+       THEN IF Dev_VersionInfoCompare(f, o) THEN "dev:version-info-comparison-raises"
+            ELSE IF Dev_AliasKeyUnhashable(f, o) THEN "dev:type-alias-cache-key-unhashable"
+            ELSE IF Dev_ParamSpecSubstitution(f, o) THEN "dev:paramspec-substituted-by-non-signature"
+            ELSE "viol:InternalError"
        ELSE IF ~(o.code \in Codes) \/ o.msglen <= 0 THEN "viol:IllFormedDiagnostic"
        ELSE IF ~RefWellFormedPos(o, file)
        THEN \* open class: the reported column is the UTF-8 byte offset of a node of the file
